@@ -164,7 +164,9 @@ class RDD:
             r = defaultdict(lambda: copy.deepcopy(zeroValue))
             for k, v in i:
                 r[k] = seqFunc(r[k], v)
-            return r
+            # a plain dict: the default factory is a local function, which a
+            # process pool could not send back to the driver
+            return dict(r)
 
         def combFuncByKey(l):
             r = defaultdict(lambda: copy.deepcopy(zeroValue))
